@@ -1,6 +1,6 @@
 --------------------------------- MODULE Denote ---------------------------------
 (* Dispatch from an operation event to its reference meaning.                    *)
-EXTENDS Views, Select, Broadcast, Slice, Ufunc, Compare, Linalg, NN, NNReal, StackMachine, TLC
+EXTENDS Views, Select, Broadcast, Slice, Ufunc, Compare, Linalg, NN, NNReal, StackMachine, ComputeGraph, TLC
 
 Operand(e, j) == IF j > Len(e.shapes) THEN Nothing
                  ELSE IF "data" \in DOMAIN e THEN [ok |-> TRUE, shape |-> e.shapes[j], elems |-> e.data[j]]
@@ -193,6 +193,9 @@ ExpectWith(e, a) ==
       \* C14: extraction facts of a program's view (valid programs only)
       [] e.op = "program_operands" -> LET v == RunProg(e.prog, 1, a)  nbin == Cardinality({q \in 1..Len(e.prog) : e.prog[q].op \in BinOps}) IN
             IF v.ok THEN [ok |-> TRUE, shape |-> <<>>, elems |-> Range0(nbin + 1)] ELSE Nothing
+      \* C14: the compute graph of a DAG expression (ComputeGraph.tla): [#nodes, #edges, no duplicate node keys], canonical listing
+      [] e.op = "graph_dag" -> LET T == e.args.terms IN
+            [ok |-> TRUE, shape |-> <<Cardinality(GraphNodes(T)), Cardinality(GraphEdges(T)), 0>>, elems |-> GraphListing(T)]
       [] e.op = "program_graph" -> LET v == RunProg(e.prog, 1, a)  nbin == Cardinality({q \in 1..Len(e.prog) : e.prog[q].op \in BinOps}) IN
             IF v.ok THEN [ok |-> TRUE, shape |-> <<>>, elems |-> <<nbin + 1, 1, 1, 0, 1>>] ELSE Nothing
 RunProg(prog, k, v) == IF k > Len(prog) \/ ~v.ok THEN v ELSE RunProg(prog, k + 1, ExpectWith(prog[k], v))
